@@ -18,14 +18,15 @@ import random
 GRAMMAR = r"""
 Model:   ('model' name=ID)? imports*=Import ('first' first=Def)? ('root' root=Pkg)? elems*=Elem;
 Import:  'import' importURI=STRING;
-Elem:    Pkg | Grp | Box | Slot | Def | Use | UseList;
+Elem:    Pkg | Grp | Box | Slot | Bag | Def | Use | UseList;
 Pkg:     'pkg' name=ID '{' ('head' head=DefB)? ('defs' defs+=Def ';')? elems*=Elem (note=Note)? '}';
 Note:    'note' name=ID;
 Grp:     items+=Def['&'] ';';
 Box:     inner=Cell;
 Cell:    'cell' name=ID;
 Slot:    'slot' val=Value;
-Value:   Tag | Cell;
+Value:   Tag | INT | Cell;
+Bag:     'bag' vals+=Value[','];
 Tag:     /t[0-9]+/;
 Def:     DefA | DefB;
 DefA:    'defa' name=ID ('extends' extends+=[Def:QName][','])?;
@@ -46,18 +47,20 @@ SLOTS = {
     "Grp": [("items", True, "Def")],
     "Box": [("inner", False, "Cell")],
     "Slot": [("val", False, "Value")],
+    "Bag": [("vals", True, "Value")],
     "Cell": [], "DefA": [], "DefB": [], "Use": [], "UseList": [],
     "Plain": [],          # a plain value (Tag alternative of Value) held by Slot.val: not an object
 }
 ALLOWED = {"Import": ["Import"], "Def": ["DefA", "DefB"], "DefB": ["DefB"], "Cell": ["Cell"],
            "Value": ["Plain", "Cell"], "Pkg": ["Pkg"], "Note": ["Note"],
-           "Elem": ["Pkg", "Grp", "Box", "Slot", "DefA", "DefB", "Use", "UseList"]}
+           "Elem": ["Pkg", "Grp", "Box", "Slot", "Bag", "DefA", "DefB", "Use", "UseList"]}
 REF_ATTR = {"Use": ("ref", False), "UseList": ("refs", True), "DefA": ("extends", True)}
-RULES = ["Model", "Import", "Elem", "Pkg", "Note", "Grp", "Box", "Cell", "Slot", "Value", "Def", "DefA", "DefB", "Use",
+RULES = ["Model", "Import", "Elem", "Pkg", "Note", "Grp", "Box", "Cell", "Slot", "Bag", "Value", "Def", "DefA", "DefB", "Use",
          "UseList"]
 NAMED = {"Pkg": "p", "Cell": "c", "DefA": "a", "DefB": "b", "Note": "n"}
 # replacement values a processor may return: an identifying string or a falsy (but not None) value
-FALSY = {"zero": 0, "empty": "", "list": [], "false": False, "tuple": (), "fzero": 0.0}
+# ("zero" is the float 0.0: the int 0 is what a plain INT value of the model may be)
+FALSY = {"zero": 0.0, "empty": "", "list": [], "false": False, "tuple": ()}
 SEPS = [" ", " ", " ", "\n", "  ", "\n  ", "\t", " # note\n", "\n\n"]
 
 
@@ -68,7 +71,7 @@ def check_carrier(mm):
             continue
         cls = mm[kind]
         got = [(a.name, a.mult in ("0..*", "1..*"), a.cls.__name__) for a in cls._tx_attrs.values()
-               if a.cont and a.cls.__name__ not in ("ID", "STRING")]
+               if a.cont and a.cls.__name__ not in ("ID", "STRING", "INT")]
         if got != [tuple(s) for s in slots]:
             raise AssertionError(f"carrier table out of date for {kind}: {got}")
 
@@ -110,7 +113,12 @@ def children(objs, o, slot=None):
             if objs[i - 1]["parent"] == o and (slot is None or objs[i - 1]["slot"] == slot)]
 
 
-def render(scn, rng=None, plain=False):
+def plain_value(o):
+    """The Python value of a plain value object (a Tag string or an INT)."""
+    return int(o["name"]) if o.get("pv") == "num" else o["name"]
+
+
+def render(scn, rng=None, plain=False, collide=0.0):
     """scn: dict(objs=[{kind,parent,slot,file,hdr,nref}], refs=[{owner,target,parts,sched}], files=[..]).
     Returns a new scenario with positions taken from the written text, plus the texts."""
     rng = rng or random.Random(0)
@@ -123,12 +131,26 @@ def render(scn, rng=None, plain=False):
         if o["kind"] in NAMED:
             o["name"] = NAMED[o["kind"]] * (1 if plain else rng.choice([1, 1, 2, 3])) + str(i)
         elif o["kind"] == "Plain":
-            o["name"] = "t" + str(i)
+            # the match-rule alternatives of Value: a Tag, or an INT (the first one is 0: falsy)
+            o.setdefault("pv", "tag" if plain else rng.choice(["tag", "num"]))
+            if o["pv"] == "num":
+                first_num = not any(x.get("pv") == "num" for x in objs[:i - 1])
+                o["name"] = "0" if first_num else str(i)
+            else:
+                o["name"] = "t" + str(i)
         elif o["kind"] == "Model":
             o["name"] = "m" + str(o["file"]) if o.get("hdr") else ""
         else:
             o["name"] = ""
         o["namelen"] = len(o["name"])
+    # names need not be unique: definitions (also of the two different classes DefA and DefB) may share
+    # a name, so that the same reference text can mean different targets
+    if collide:
+        defs = [o for o in objs if o["kind"] in ("DefA", "DefB")]
+        for k, o in enumerate(defs):
+            if k and rng.random() < collide:
+                o["name"] = rng.choice(defs[:k])["name"]
+                o["namelen"] = len(o["name"])
     # paths
     for i, o in enumerate(objs, 1):
         if o["parent"] == 0:
@@ -236,9 +258,16 @@ def render(scn, rng=None, plain=False):
         elif kind == "Slot":
             t("slot")
             spans += kids("val")
+        elif kind == "Bag":
+            t("bag")
+            for j, c in enumerate(children(objs, i, "vals")):
+                if j:
+                    t(",")
+                spans.append(emit(w, c))
         elif kind == "Plain":
             at = t(o["name"])
-            matches.append(dict(rule="Tag", file=o["file"], text=o["name"], line=at[1], col=at[2]))
+            if o["pv"] == "tag":
+                matches.append(dict(rule="Tag", file=o["file"], text=o["name"], line=at[1], col=at[2]))
         elif kind == "DefA":
             t("defa"); name()
             if refs_of.get(i):
@@ -259,7 +288,9 @@ def render(scn, rng=None, plain=False):
         return (first[0], end)
 
     # file names: main as given ("" = string load), imports imp<k>.m
-    scn_files = [scn.get("files", ["main.m"])[0]] + [f"imp{k}.m" for k in range(2, nfiles + 1)]
+    lang = list(scn.get("lang") or [1] * nfiles)
+    scn_files = [scn.get("files", ["main.m"])[0]] + \
+        [f"imp{k}.m" + ("2" if lang[k - 1] == 2 else "") for k in range(2, nfiles + 1)]
     for f in range(1, nfiles + 1):
         root = next(i for i, o in enumerate(objs, 1) if o["parent"] == 0 and o["file"] == f)
         w = _Writer(rng, plain)
@@ -273,7 +304,7 @@ def render(scn, rng=None, plain=False):
         key = (m["rule"], m["text"])
         seen[key] = seen.get(key, 0) + 1
         m["occ"] = seen[key]
-    out = dict(objs=objs, refs=refs, files=scn_files, texts=texts, matches=matches,
+    out = dict(objs=objs, refs=refs, files=scn_files, texts=texts, matches=matches, lang=lang,
                procs=list(scn.get("procs", [])), repl=list(scn.get("repl", [])))
     return out
 
@@ -285,8 +316,11 @@ def spec_view(case, **extra):
                    end=o["end"], line=o["line"], col=o["col"], namelen=o["namelen"]) for o in case["objs"]],
         refs=[dict(owner=r["owner"], start=r["start"], len=r["len"], target=r["target"], sched=r["sched"])
               for r in case["refs"]],
-        files=list(case["files"]), procs=list(case["procs"]), repl=list(case["repl"]),
+        files=list(case["files"]), lang=list(case.get("lang") or [1] * len(case["files"])),
+        procs=list(case["procs"]), repl=list(case["repl"]),
         replk=list(case.get("replk") or ["str"] * len(case["repl"])),
+        procs2=list(case.get("procs2") or []), repl2=list(case.get("repl2") or []),
+        replk2=list(case.get("replk2") or ["str"] * len(case.get("repl2") or [])),
         fault={k: v for k, v in (case.get("fault") or NO_FAULT).items() if k in NO_FAULT})
     d.update(extra)
     return d
@@ -304,7 +338,8 @@ class Ctx:
     def __init__(self, case, fault=None, user=False):
         self.case, self.fault, self.user = case, fault, user
         self.path2id = {o["path"]: i for i, o in enumerate(case["objs"], 1)}
-        self.plain_id = {o["name"]: i for i, o in enumerate(case["objs"], 1) if o["kind"] == "Plain"}
+        self.plain_id = {(type(plain_value(o)).__name__, plain_value(o)): i
+                         for i, o in enumerate(case["objs"], 1) if o["kind"] == "Plain"}
         self.models = []              # every model of the load, in the order they were constructed
         self.match_calls = 0
         self.nref = {}
@@ -414,7 +449,7 @@ def _obj_processor(ctx, rule, replace):
         if _is_obj(obj):
             oid = ctx.path2id.get(obj_path(ctx, obj), 0)
         else:                       # a plain value in an attribute typed with an abstract rule
-            oid = ctx.plain_id.get(obj, 0) if isinstance(obj, str) else 0
+            oid = ctx.plain_id.get((type(obj).__name__, obj), 0) if isinstance(obj, (str, int)) else 0
         linked = _all_linked(ctx)
         inited = all(id(u) in ctx.inited for u in ctx.created)
         ctx.calls.append(dict(obj=oid, rule=rule, linked=linked, inited=inited))
@@ -452,20 +487,32 @@ def _user_classes():
 
         def __init__(self, **kw):
             _CUR[0].inited.add(id(self))
-        return type(name, (object,), {"__new__": __new__, "__init__": __init__})
+        d = {"__new__": __new__, "__init__": __init__}
+        if name == "DefA":          # container-like: a definition that extends nothing is falsy
+            def __len__(self):
+                try:
+                    return len(self.extends or [])
+                except AttributeError:
+                    return 0
+            d["__len__"] = __len__
+        return type(name, (object,), d)
     return [mk("Pkg"), mk("DefA"), mk("Use")]
 
 
-def _metamodel(user, tools, fresh, grammar_dir=None):
+def _metamodel(user, tools, fresh, grammar_dir=None, lang=1):
+    """The metamodel of language `lang`.  Metamodels are reused from load to load (as an application
+    does) unless `fresh`; the two languages have the same grammar but are different metamodels."""
     from textx import metamodel_from_file, metamodel_from_str
-    key = (user, tools)
-    if grammar_dir:                 # the grammar itself comes from a file (classes then know a file name)
-        gp = os.path.join(grammar_dir, "carrier.tx")
+    key = (user, tools, lang, grammar_dir)
+    if grammar_dir and (fresh or key not in _MM):   # the grammar itself comes from a file
+        gp = os.path.join(grammar_dir, f"carrier{lang}.tx")
         with open(gp, "w") as f:
             f.write(GRAMMAR)
         mm = metamodel_from_file(gp, classes=_user_classes() if user else None, textx_tools_support=tools)
         check_carrier(mm)
-        return mm
+        if fresh:
+            return mm
+        _MM[key] = mm
     if fresh or key not in _MM:
         mm = metamodel_from_str(GRAMMAR, classes=_user_classes() if user else None, textx_tools_support=tools)
         check_carrier(mm)
@@ -480,9 +527,7 @@ def _provider(ctx):
     from textx import get_model
     from textx.scoping import Postponed
 
-    def inner(obj_or_model, attr, obj_ref):
-        root = get_model(obj_or_model)
-        parts = obj_ref.obj_name.split(".")
+    def candidates(root, parts):
         found = []
         for o in walk(root):
             if type(o).__name__ in ("DefA", "DefB") and o.name == parts[-1]:
@@ -494,18 +539,23 @@ def _provider(ctx):
                 want = list(reversed(parts[:-1]))
                 if pk[:len(want)] == want:
                     found.append(o)
-        return found[0] if len(found) == 1 else None
+        return found
 
     class Sched(sp.ImportURI):
+        """Resolves a (qualified) name in the model of the reference and in the models it imports;
+        postpones as the schedule says.  Where a name is ambiguous (definitions may share names) the
+        environment decides: the scenario says which definition the reference means."""
+
         def __init__(self):
-            super().__init__(inner)
+            super().__init__(lambda *a: None)
 
         def load_models(self, model, encoding="utf-8"):
             ctx.models.append(model)          # called once for every model right after its construction
             return super().load_models(model, encoding=encoding)
 
         def __call__(self, obj, attr, obj_ref):
-            key = (_file_no(ctx, get_model(obj)), obj_ref.position)
+            model = get_model(obj)
+            key = (_file_no(ctx, model), obj_ref.position)
             k = ctx.refkey.get(key)
             if k is not None:
                 n = ctx.attempts.get(k, 0)
@@ -514,29 +564,65 @@ def _provider(ctx):
                     ctx.resolution.append((key[0], k, "postponed"))
                     return Postponed()
                 ctx.resolution.append((key[0], k, "resolved"))
-            return super().__call__(obj, attr, obj_ref)
+            parts = obj_ref.obj_name.split(".")
+            found = candidates(model, parts)
+            for m in model._tx_model_repository.local_models:
+                found += candidates(m, parts)
+            if len(found) > 1 and k is not None:
+                want = ctx.case["objs"][ctx.case["refs"][k]["target"] - 1]["path"]
+                found = [o for o in found if obj_path(ctx, o) == want]
+            return found[0] if len(found) == 1 else None
     return Sched()
 
 
-def load(case, workdir, procs=(), repl=(), fault=None, user=False, tools=False, replk=None, grammar_file=False):
+class _Poison:
+    """What the caller's dict is filled with after it was registered: must never be called."""
+
+    def __init__(self, ctx, rule):
+        self.ctx, self.rule = ctx, rule
+
+    def __call__(self, obj):
+        self.ctx.calls.append(dict(obj=0, rule="FOREIGN:" + self.rule, linked=False, inited=False))
+        return None
+
+
+def load(case, workdir, procs=(), repl=(), fault=None, user=False, tools=False, replk=None, grammar_file=False,
+         procs2=(), repl2=(), replk2=None):
     """Load the rendered case with the real textX.  Returns an observation dict."""
+    import textx.registration as reg
     from textx import textxerror_wrap
     from textx.exceptions import TextXError
     ctx = Ctx(case, fault, user)
     _CUR[0] = ctx
-    mm = _metamodel(user, tools, fresh=bool(fault and fault["on"]), grammar_dir=workdir if grammar_file else None)
-    mm.register_scope_providers({"*.*": _provider(ctx)})
-    kinds = dict(zip(repl, replk or ["str"] * len(repl)))
-    table = {}
-    for r in procs:
-        p = _obj_processor(ctx, r, kinds.get(r))
-        if fault and fault["on"] and fault["wrap"] and fault["proc"] == "obj" and fault["rule"] == r:
-            p = textxerror_wrap(p)
-        table[r] = p
-    if fault and fault["on"] and fault["proc"] == "match":
-        p = _match_processor(ctx, fault["rule"])
-        table[fault["rule"]] = textxerror_wrap(p) if fault["wrap"] else p
-    mm.register_obj_processors(table)
+    lang = list(case.get("lang") or [1] * len(case["files"]))
+    gdir = workdir if grammar_file else None
+    fresh = bool(user and fault and fault["on"])      # a failing load may leave user classes instrumented
+    mms = {1: _metamodel(user, tools, fresh, gdir, 1)}
+    if 2 in lang:
+        mms[2] = _metamodel(user, tools, fresh, gdir, 2)
+    provider = _provider(ctx)
+    flang = lang[case["objs"][fault["obj"] - 1]["file"] - 1] if fault and fault["on"] and fault["proc"] == "obj" \
+        else lang[fault["mfile"] - 1] if fault and fault["on"] else 1
+    for ln, mm in mms.items():
+        mm.register_scope_providers({"*.*": provider})
+        pr, rp, rk = (procs, repl, replk) if ln == 1 else (procs2, repl2, replk2)
+        kinds = dict(zip(rp, rk or ["str"] * len(rp)))
+        table = {}
+        for r in pr:
+            p = _obj_processor(ctx, r, kinds.get(r))
+            if fault and fault["on"] and fault["wrap"] and fault["proc"] == "obj" and fault["rule"] == r and ln == flang:
+                p = textxerror_wrap(p)
+            table[r] = p
+        if fault and fault["on"] and fault["proc"] == "match" and ln == flang:
+            p = _match_processor(ctx, fault["rule"])
+            table[fault["rule"]] = textxerror_wrap(p) if fault["wrap"] else p
+        mm.register_obj_processors(table)
+        # what was registered is what counts: the caller's dict is recycled afterwards
+        for r in list(table) + [x for x in RULES if x not in table]:
+            if r not in ("ID", "QName", "Tag"):
+                table[r] = _Poison(ctx, r)
+            else:
+                del table[r]
     files = case["files"]
     for k, name in enumerate(files, 1):
         if name:
@@ -544,13 +630,16 @@ def load(case, workdir, procs=(), repl=(), fault=None, user=False, tools=False, 
     obs = dict(ok=True, err=None, calls=ctx.calls)
     model = None
     try:
+        if 2 in mms:
+            reg.clear_language_registrations()
+            reg.register_language(reg.LanguageDesc("vtcarrier2", pattern="*.m2", metamodel=mms[2]))
         if files[0]:
             for k, name in enumerate(files, 1):
                 with open(os.path.join(workdir, name), "w") as f:
                     f.write(case["texts"][k])
-            model = mm.model_from_file(os.path.join(workdir, files[0]))
+            model = mms[1].model_from_file(os.path.join(workdir, files[0]))
         else:
-            model = mm.model_from_str(case["texts"][1])
+            model = mms[1].model_from_str(case["texts"][1])
     except Exception as e:  # the error is the observation
         obs["ok"] = False
         if isinstance(e, TextXError):
@@ -563,6 +652,9 @@ def load(case, workdir, procs=(), repl=(), fault=None, user=False, tools=False, 
         else:
             obs["err"] = dict(cls="Other", filename=NONE_FILE, line=NONE_NUM, col=NONE_NUM, nchar=NONE_NUM)
             obs["exc"] = f"{type(e).__name__}: {e}"
+    finally:
+        if 2 in mms:
+            reg.clear_language_registrations()
     obs["resolution"] = ctx.resolution
     if model is not None:
         models = {_file_no(ctx, m): m for m in all_models(model)}
@@ -608,7 +700,9 @@ def project_final(ctx, models):
                 if _is_obj(x):
                     items.append("o" + str(pid))
                     visit(x, cpath)
-                elif pid and ctx.case["objs"][pid - 1]["kind"] == "Plain" and x == ctx.case["objs"][pid - 1]["name"]:
+                elif pid and ctx.case["objs"][pid - 1]["kind"] == "Plain" and not isinstance(x, bool) and \
+                        (type(x).__name__, x) == (type(plain_value(ctx.case["objs"][pid - 1])).__name__,
+                                                  plain_value(ctx.case["objs"][pid - 1])):
                     items.append("o" + str(pid))           # the plain value itself, untouched
                     out[pid - 1] = dict(reach=True, slots=[])
                 else:
@@ -661,7 +755,7 @@ def random_scenario(rng, max_objs=12, nfiles=1, max_refs=6, max_postpone=2):
             if budget() <= 2:
                 break
             kind = rng.choice(["Pkg", "Pkg", "Grp", "Box", "Slot", "DefA", "DefB", "Use", "UseList", "DefB", "Use",
-                               "Slot"])
+                               "Slot", "Bag"])
             if kind == "Pkg" and depth >= 3:
                 kind = "DefA"
             c = add(kind, i, "elems", file)
@@ -685,6 +779,9 @@ def random_scenario(rng, max_objs=12, nfiles=1, max_refs=6, max_postpone=2):
             add("Cell", i, "inner", file)
         elif kind == "Slot":
             add(rng.choice(["Plain", "Plain", "Cell"]), i, "val", file)
+        elif kind == "Bag":
+            for _ in range(rng.choice([1, 2, 3])):
+                add(rng.choice(["Plain", "Plain", "Cell"]), i, "vals", file)
 
     for f in range(1, nfiles + 1):
         limit[0] = max(len(objs) + 3, max_objs * f // nfiles)
